@@ -2,11 +2,11 @@
 
 Kernel: Output.plot and _plot_core of the standard line plot, obsfcst, qq,
 sort, hist, freq (harness `diagrams`) and qq with -x/-q, scatter, error, change,
-cond, marginal, reliability, timeseries (`diagrams2.*`), on a real Data object with symbolic cells.
+cond, marginal, reliability, pithist, timeseries (`diagrams2.*`), on a real Data object with symbolic cells.
 Boundary: matplotlib.pyplot is a recording stub -- the claim concerns the x / y
 arrays handed to plot()/bar(), one series per input in command-line order, and
 that every valid case falls in exactly one bin of a binned diagram.
-NOT decided: the other 14 diagrams, maps, rank and impact views, and whether
+NOT decided: the other 13 diagrams, maps, rank and impact views, and whether
 matplotlib draws what it is given."""
 import numpy as np
 
@@ -210,7 +210,7 @@ def run(S, which, T, L, P):
                 S.prove("bin-height=%s" % which, S.same(ys[b], w), twin=S.same(ys[b], w + 1))
 
 
-DIAGRAMS2 = ["reliability/below", "reliability/above", "qq+quantiles/location", "qq+quantiles/no", "scatter/no", "scatter/location", "error/location", "change", "cond", "marginal/above", "marginal/below", "timeseries"]
+DIAGRAMS2 = ["pithist", "reliability/below", "reliability/above", "qq+quantiles/location", "qq+quantiles/no", "scatter/no", "scatter/location", "error/location", "change", "cond", "marginal/above", "marginal/below", "timeseries"]
 
 
 def h_diagrams2(which, big):
@@ -231,7 +231,7 @@ def run2(S, which, big):
     MI = common.input_class()
     T, L, P = {"scatter/no": (2, 1, 2), "scatter/location": (2, 1, 2), "error/location": (2, 1, 2), "change": (3, 1, 1),
                "cond": (2, 1, 1), "qq+quantiles/location": (2, 1, 2), "qq+quantiles/no": (2, 1, 1),
-               "reliability/below": (3, 1, 1), "reliability/above": (3, 1, 1), "marginal/above": (2, 1, 2), "marginal/below": (2, 1, 2), "timeseries": (2, 2, 2)}[which]
+               "pithist": (3, 1, 1), "reliability/below": (3, 1, 1), "reliability/above": (3, 1, 1), "marginal/above": (2, 1, 2), "marginal/below": (2, 1, 2), "timeseries": (2, 2, 2)}[which]
     if big and which in ("scatter/no", "scatter/location"):
         L = 2
     if big and which == "cond":
@@ -262,6 +262,12 @@ def run2(S, which, big):
                 xq[cells[-1] + (0,)] = S.real("B.q?", nan=True)
             kw = {"quantiles": S.const([0.1, 0.9]), "quantile_scores": xq}
             rawp.append(xq)
+        if which == "pithist":
+            pit = S.array(nm + ".pit", shape, nan=False, lo=0, hi=1)
+            if nm == "B":
+                pit[cells[-1]] = S.real("B.pit?", nan=True, lo=0, hi=1)
+            kw = {"pit": pit}
+            rawp.append(pit)
         if which.startswith("reliability"):
             pr = S.array(nm + ".p", shape + (1,), nan=False, lo=0, hi=1)
             kw = {"thresholds": S.const([1.0]), "threshold_scores": pr}
@@ -310,6 +316,9 @@ def run2(S, which, big):
     elif which == "cond":
         pl = out.Cond()
         pl.thresholds = S.vector(t)
+    elif which == "pithist":
+        pl = out.PitHist()
+        pl.thresholds = S.const([0.0, 0.5, 1.0])      # bin edges (-r)
     elif which.startswith("reliability"):
         pl = out.Reliability()
         pl.thresholds = S.const([1.0])
@@ -341,6 +350,24 @@ def run2(S, which, big):
         got = S.elements(got)
         return len(got) == len(want) and bool(S.all(S.same(a, b) for a, b in zip(got, want)))
 
+    if which == "pithist":
+        # one panel per input, in order; bar heights = percentage of the PIT values in [0, .5) and [.5, 1]
+        bars = calls.find("mpl", "bar")
+        titles = [c[2][0] for c in calls.find("mpl", "title")]
+        S.prove("one-panel-per-input-in-order", len(bars) == 2 and titles[:2] == list(names), detail=which)
+        sel = [q for q in cells if all(not bool(S.isnan(rawp[k][q])) for k in range(2))]
+        for k, c in enumerate(bars[:2]):
+            ys = S.elements(c[2][1])
+            S.prove("one-bar-per-bin", len(ys) == 2, detail=which)
+            if len(ys) != 2 or not sel:
+                continue
+            lowc = S.count(rawp[k][q] < 0.5 for q in sel)
+            # the counts are concrete on the path and the percentages are doubles (100/3 is not exact): tolerance
+            S.prove("bar=percentage-of-pit-values-in-the-bin", S.and_(S.close(ys[0], S.div(lowc * 100.0, len(sel))),
+                                                                     S.close(ys[1], S.div((len(sel) - lowc) * 100.0, len(sel)))),
+                    twin=S.close(ys[0], S.div(lowc * 100.0, len(sel)) + 1), detail=which)
+            S.prove("each-case-in-exactly-one-bin", S.close(ys[0] + ys[1], 100.0), detail=which)
+        return
     if which.startswith("reliability"):
         below = which.endswith("below")
         edges = [0.0, 0.5, 1.0]
